@@ -89,7 +89,9 @@ def tstep (st : St) (ws : List String) : Option (St × String) :=
     | none => none
   | "texec" :: rest =>
     (parseTAs rest).bind fun tas => if tas.isEmpty then none else
-      some (st, showTReply (executeActions st.s (tas.map taAction)))
+      match executeActionsRPC st.s (tas.map taAction) with
+      | none => some (st, "rpc-err")
+      | some r => some (st, showTReply r)
   | "tsim" :: rest =>
     (parseTAs rest).bind fun tas => if tas.isEmpty then none else
       match simulateActions st.s (tas.map fun t => (taAction t).prog) with
@@ -97,9 +99,10 @@ def tstep (st : St) (ws : List String) : Option (St × String) :=
       | some rs => some (st, " ".intercalate (rs.map fun (_, sc) => showScope sc))
   | "ttx" :: rest =>
     (parseTAs rest).bind fun tas => if tas.isEmpty then none else
-      match onchain some Scope.empty st.s (tas.map taAction) with
-      | none => some (st, "unpayable")
-      | some r => some (st, showTReply r)
+      match onchainTx some Scope.empty st.s (tas.map taAction) with
+      | .tooMany => some (st, "too-many")
+      | .unpayable => some (st, "unpayable")
+      | .executed r => some (st, showTReply r)
   | _ => none
 
 /-
@@ -121,7 +124,9 @@ def step (st : St) (ws : List String) : St × String :=
     match a.toNat?, (parseNats rest).bind pairs with
     | some a, some ps =>
       if ps.isEmpty then (st, "bad-op") else
-      (st, showReply (executeActions st.s (ps.map fun (t, v) => transfer a t v)))
+      match executeActionsRPC st.s (ps.map fun (t, v) => transfer a t v) with
+      | none => (st, "rpc-err")
+      | some r => (st, showReply r)
     | _, _ => (st, "bad-op")
   | "sim" :: a :: rest =>
     match a.toNat?, (parseNats rest).bind pairs with
@@ -135,9 +140,10 @@ def step (st : St) (ws : List String) : St × String :=
     match a.toNat?, fee.toNat?, (parseNats rest).bind pairs with
     | some a, some fee, some ps =>
       if ps.isEmpty then (st, "bad-op") else
-      match onchain (deductFee a fee) (sponsorKeys a) st.s (ps.map fun (t, v) => transfer a t v) with
-      | none => (st, "unpayable")
-      | some r => (st, showReply r)
+      match onchainTx (deductFee a fee) (sponsorKeys a) st.s (ps.map fun (t, v) => transfer a t v) with
+      | .tooMany => (st, "too-many")
+      | .unpayable => (st, "unpayable")
+      | .executed r => (st, showReply r)
     | _, _, _ => (st, "bad-op")
   | _ => (st, "bad-op")
 
